@@ -51,6 +51,7 @@ impl C16 {
         match (ctx.flavour, ctx.tier) {
             (Flavour::Rel, Tier::Quick) => 300,
             (Flavour::Rel, Tier::Thorough) => 5_000,
+            (Flavour::Miri, _) => 10,
             _ => 60,
         }
     }
@@ -82,6 +83,10 @@ impl C16 {
         let n = self.batch(ctx).len() as u64;
         let orders = ctx.tier.pick(5, 10);
         let thread_rounds = ctx.tier.pick(4, 16);
+        if ctx.flavour == Flavour::Miri {
+            // no process spawning under Miri: only the in-process contexts
+            return Families::new(vec![("fresh-process", 0), ("shuffled-in-process", 1), ("threads", 2), ("debug-build", 0)]);
+        }
         Families::new(vec![("fresh-process", n), ("shuffled-in-process", orders), ("threads", thread_rounds), ("debug-build", n)])
     }
 
@@ -187,7 +192,12 @@ impl Check for C16 {
                 let pairs: Arc<Mutex<std::collections::HashSet<(usize, usize)>>> = Arc::new(Mutex::new(Default::default()));
                 let per_thread = (batch.len() * 4 / 16).max(8);
                 let mut hs = vec![];
-                for t in 0..16usize {
+                let n_threads = match (ctx.flavour, std::env::var("NLV_THREADS").ok().and_then(|s| s.parse::<usize>().ok())) {
+                    (_, Some(n)) => n,
+                    (Flavour::Miri, None) => 4usize,
+                    _ => 16,
+                };
+                for t in 0..n_threads {
                     let (batch, expected, bad, pairs) = (batch.clone(), expected.clone(), bad.clone(), pairs.clone());
                     let seed = r.next();
                     hs.push(std::thread::spawn(move || {
@@ -253,6 +263,18 @@ impl Check for C16 {
             }),
             assumptions: vec!["only the two Cargo profiles are compared (release without, dev with debug assertions and overflow checks)".to_string(), "hooks keep thread-local state only, so the monitor does not synchronise the threads it observes".to_string()],
             inconclusive,
+        }
+    }
+
+    fn post(&mut self, ctx: &Ctx, merged: &mut Stats) {
+        if ctx.flavour == Flavour::Rel && ctx.tier == Tier::Thorough {
+            // Miri's data-race detector over the threads context (and the hand-written Send/Sync of Object)
+            let mctx = Ctx { seed: ctx.seed, tier: ctx.tier, flavour: Flavour::Miri };
+            let mut me = C16::new();
+            let n = me.fams(&mctx).total();
+            crate::sup::run_miri("C16", ctx, 0, n, 3, merged);
+            // ThreadSanitizer build, if the check script could build it
+            crate::sup::run_tsan("C16", ctx, merged);
         }
     }
 }
